@@ -1104,7 +1104,7 @@ def _raster(gpts, roi):
 
 
 def _mask(kind, H, W, seed):
-    if kind == "none":
+    if kind in ("none", "wrong-shape"):
         return None
     rng = np.random.default_rng(seed + 5)
     if kind == "ones":
@@ -1126,6 +1126,15 @@ def rt_sic(inp):
     fit = inp["fit_function"]
     o = _raster((Rr, Rc), (Qr, Qc))
     a_in, m_in = arr.copy(), None if mask is None else mask.copy()
+    if inp["mask"] == "wrong-shape":
+        m_in = np.ones((Qr, 1), dtype=np.float32)  # would broadcast silently if the shape test were weakened
+        try:
+            o._set_intensities_com(a_in, dp_mask=m_in, fit_function=fit, vectorized_calculation=inp["vectorized"])
+        except ValueError:
+            return _res([] if np.array_equal(a_in, arr) else ["intensities modified before the ValueError"], "ValueError for a mask whose shape is not the detector shape")
+        r = _res([f"mask of shape {(Qr, 1)} accepted for detector shape {(Qr, Qc)}"], "ValueError for a mask whose shape is not the detector shape")
+        r["klass"] = "wrong-mask-shape-accepted"
+        return r
     o._set_intensities_com(a_in, dp_mask=m_in, fit_function=fit, vectorized_calculation=inp["vectorized"])
     eff = arr.astype(np.float64) * (1.0 if mask is None else mask.astype(np.float64))
     er, ec = _com64(eff)
@@ -1175,6 +1184,7 @@ def fam_sic(vectorized):
                     if fit == "plane" and sh[0] * sh[1] < 4:
                         continue
                     yield dict(shape=list(sh), mask=mask, fit_function=fit, vectorized=vectorized, seed=seed + sh[2])
+        yield dict(shape=[2, 2, 3, 4], mask="wrong-shape", fit_function="none", vectorized=vectorized, seed=seed)
     return fam
 
 
@@ -1288,16 +1298,29 @@ def rt_fit_background(inp):
     if inp.get("positions"):
         r, c = np.indices(shape[:2])
         pos = torch.tensor(np.stack([r.ravel(), c.ravel()], -1), dtype=torch.float32)
+    if inp.get("expect"):
+        if inp["expect"] == "ValueError:positions":
+            pos = torch.zeros((meas.shape[0] + 1, 2))
+        exp_exc = ValueError if inp["expect"].startswith("ValueError") else NotImplementedError
+        try:
+            m.fit_origin_background(probe_positions=pos, fit_method=inp["fit_method"])
+        except exp_exc:
+            return _res([] if m.origin_fitted is None else ["origin_fitted set although the call raised"], f"{exp_exc.__name__} and no state change")
+        return _res([f"no {exp_exc.__name__} for {inp['expect']}"], f"{exp_exc.__name__}")
     ret = m.fit_origin_background(probe_positions=pos, fit_method=inp["fit_method"])
     got = m.origin_fitted.numpy().astype(np.float64)
     exp = meas.numpy().astype(np.float64)
+    what = f"the exact {inp['surface']} surface"
+    if inp["fit_method"] == "constant" and inp["surface"] != "constant":
+        exp = np.broadcast_to(exp.mean(0), exp.shape)  # whole-view statement of the constant fit: every row = mean of the measured origins
+        what = "the mean of the measured origins"
     problems = []
     if ret is not m:
         problems.append("does not return self")
     if got.shape != exp.shape:
         problems.append(f"origin_fitted shape {got.shape} != {exp.shape}")
     elif not np.abs(got - exp).max() <= 2e-3:
-        problems.append(f"fit deviates from the exact {inp['surface']} surface by {np.abs(got - exp).max():.3g}")
+        problems.append(f"fit deviates from {what} by {np.abs(got - exp).max():.3g}")
     if not torch.equal(m.origin_measured, meas):
         problems.append("measured origins modified")
     return _res(problems, "fitting a plane / constant to origins lying exactly on such a surface returns that surface")
@@ -1306,8 +1329,10 @@ def rt_fit_background(inp):
 def fam_fit_background(tier="quick", seed=0):
     for sh in [(3, 4, 2, 2), (5, 2, 3, 2), (4, 4, 2, 3)]:
         for positions in (False, True):
-            for surf, fm in (("constant", "constant"), ("plane", "plane"), ("constant", "plane")):
+            for surf, fm in (("constant", "constant"), ("plane", "plane"), ("constant", "plane"), ("plane", "constant")):
                 yield dict(shape=list(sh), surface=surf, fit_method=fm, positions=positions, seed=seed + sh[0] + (7 if surf == "constant" else 0))
+    yield dict(shape=[3, 4, 2, 2], surface="constant", fit_method="constant", positions=True, expect="ValueError:positions", seed=seed)
+    yield dict(shape=[3, 4, 2, 2], surface="constant", fit_method="parabola", positions=False, expect="NotImplementedError", seed=seed)
 
 
 @_guard
@@ -1476,6 +1501,15 @@ def conc_getcom(ev):
 
 C_CALC.concretize, C_SHIFT.concretize, C_GETCOM.concretize = conc_calc, conc_shift, conc_getcom
 C_SIC_VEC.concretize, C_SIC_LOOP.concretize = conc_sic(True), conc_sic(False)
+
+# tiny helpers / one-line properties interpreted from their source inside the functions under contract (listed in evidence)
+_INL_COM = [q for q in INLINE if "CenterOfMassOriginModel" in q or ":Dataset." in q]
+C_SB_INIT.inline = {f"{PU}:SimpleBatcher.rng"}
+for _c in (C_SET_MEASURED, C_SET_FITTED, C_CALC, C_FITBG, C_SHIFT):
+    _c.inline = set(_INL_COM)
+C_GETCOM.inline = {f"{AF}:sum", f"{AF}:match_device", f"{AF}:validate_arraylike"}
+for _c in (C_SIC_VEC, C_SIC_LOOP):
+    _c.inline = {q for q in INLINE if "PtychographyDataset" in q or ":Dataset." in q or q.endswith(":tqdmnd")}
 
 for _c, _rt, _fam in (
     (C_SB_INIT, rt_batcher, fam_batcher), (C_SB_ITER, rt_batcher, fam_batcher),
